@@ -157,9 +157,85 @@ func c08adapters(c *Ctx) {
 			c.R.Undecided(rule, a.pkg+"."+a.fn, "the parameter map is filled here", "no map store found")
 			continue
 		}
+		// (round 6) the adapter reads the request and does not write it: every append and every element store goes
+		// into storage the adapter made itself. `filtered := values[:0]` over a ranged request collection compacts
+		// the survivors over the request's own backing array — the first parse is right, every later reading of the
+		// same request (a middleware, then the handler) sees values nobody supplied.
+		var owned func(v ssa.Value, seen map[ssa.Value]bool) string
+		owned = func(v ssa.Value, seen map[ssa.Value]bool) string {
+			if v == nil || seen[v] {
+				return ""
+			}
+			seen[v] = true
+			switch x := v.(type) {
+			case *ssa.MakeSlice, *ssa.Alloc, *ssa.MakeMap:
+				return ""
+			case *ssa.Const:
+				return ""
+			case *ssa.Phi:
+				for _, e := range x.Edges {
+					if r := owned(e, seen); r != "" {
+						return r
+					}
+				}
+				return ""
+			case *ssa.Slice:
+				return owned(x.X, seen)
+			case *ssa.ChangeType:
+				return owned(x.X, seen)
+			case *ssa.UnOp:
+				if al, ok := x.X.(*ssa.Alloc); ok && x.Op == token.MUL {
+					for _, r := range *al.Referrers() {
+						if st, ok := r.(*ssa.Store); ok && st.Addr == al {
+							if r := owned(st.Val, seen); r != "" {
+								return r
+							}
+						}
+					}
+					return ""
+				}
+			case *ssa.Call:
+				if b, ok := x.Call.Value.(*ssa.Builtin); ok && b.Name() == "append" {
+					return owned(x.Call.Args[0], seen)
+				}
+				if returnsFreshAlloc(x.Call.StaticCallee()) {
+					return ""
+				}
+			}
+			return fmt.Sprintf("%s (%T)", v.Name(), v)
+		}
+		writes := 0
+		var wbad []string
+		for _, b := range f.Blocks {
+			for _, ins := range b.Instrs {
+				switch x := ins.(type) {
+				case *ssa.Call:
+					if bi, ok := x.Call.Value.(*ssa.Builtin); ok && bi.Name() == "append" {
+						writes++
+						if r := owned(x.Call.Args[0], map[ssa.Value]bool{}); r != "" {
+							wbad = append(wbad, fmt.Sprintf("%s: append writes into storage the adapter did not allocate (%s): the request's own collection is rewritten in place", c.P.Pos(x.Pos()), r))
+						}
+					}
+				case *ssa.Store:
+					if ia, ok := x.Addr.(*ssa.IndexAddr); ok {
+						writes++
+						if r := owned(ia.X, map[ssa.Value]bool{}); r != "" {
+							wbad = append(wbad, fmt.Sprintf("%s: element store into storage the adapter did not allocate (%s)", c.P.Pos(x.Pos()), r))
+						}
+					}
+				case *ssa.MapUpdate:
+					writes++
+					if r := owned(x.Map, map[ssa.Value]bool{}); r != "" {
+						wbad = append(wbad, fmt.Sprintf("%s: map store into a map the adapter did not make (%s)", c.P.Pos(x.Pos()), r))
+					}
+				}
+			}
+		}
+		sort.Strings(wbad)
+		c.R.Check(len(wbad) == 0, rule, a.pkg+"."+a.fn+"#request-untouched", "every append, element store and map store in the adapter targets storage the adapter allocated (make, literal, nil): the request's own collections are read, never rewritten", posOf(c, f), fmt.Sprintf("%d writes; %s", writes, strings.Join(wbad, "; ")), wbad, writes)
 		c.R.Check(len(bad) == 0, rule, a.pkg+"."+a.fn, "values go from the request's collection into the parameter map unchanged (range, index, slice and append only — no call or operator rewrites a supplied value before its member's type is known)", posOf(c, f), strings.Join(bad, "; "), bad, stores)
 	}
-	c.R.Min(rule, 3, "ParseHeaders, GetFormValues, ParsePath")
+	c.R.Min(rule, 6, "ParseHeaders, GetFormValues, ParsePath (values unchanged + request untouched)")
 }
 
 // c08rangeFunnel (R4b, round 5): one comparator decides "inside the declared range", the one whose 36-row table
@@ -373,5 +449,71 @@ func c08noBypass(c *Ctx, pkg string) {
 	}
 	if sites < 3 {
 		c.R.Undecided(rule, pkg+"#decode-sites", "the decode sites of the package are recognised", fmt.Sprintf("%d found", sites))
+	}
+}
+
+// c08inheritOnly (R12, round 6): a value is looked up in an ancestor only for a member that says so. The ancestor
+// search is recursiveValuer.Value; the unmarshaller hands a recursiveValuer to a member's lookup in exactly one place,
+// createValuer on the branch where the member's options say `inherit`, and getValueWithChainedKeys uses one to walk a
+// dotted key inside the document (each step's parent is the previous step). Any other function wrapping a map in a
+// recursiveValuer (a slice element filled "with its parent", say) makes every absent member of that subtree — optional,
+// defaulted or required — silently take a same-named value from an enclosing object.
+func c08inheritOnly(c *Ctx, pkg string) {
+	rule := "C08.R12"
+	n := 0
+	var bad []string
+	gated := false
+	for _, f := range c.P.AllFuncs(pkg) {
+		for _, b := range f.Blocks {
+			for _, ins := range b.Instrs {
+				mi, ok := ins.(*ssa.MakeInterface)
+				if !ok || !strings.HasSuffix(typeString(mi.X.Type()), "core/mapping.recursiveValuer") {
+					continue
+				}
+				n++
+				at := c.P.Pos(mi.Pos())
+				if !mi.Pos().IsValid() {
+					at = posOf(c, f)
+				}
+				root := f
+				for root.Parent() != nil {
+					root = root.Parent()
+				}
+				name := root.RelString(root.Pkg.Pkg)
+				switch name {
+				case "getValueWithChainedKeys", "simpleValuer.Parent", "recursiveValuer.Parent", "(simpleValuer).Parent", "(recursiveValuer).Parent":
+					continue
+				case "createValuer":
+					// the construction lies on the true outcome of opts.inherit()
+					ok := false
+					for d := b; d != nil; d = d.Idom() {
+						id := d.Idom()
+						if id == nil || len(id.Instrs) == 0 {
+							continue
+						}
+						br, isIf := id.Instrs[len(id.Instrs)-1].(*ssa.If)
+						if !isIf {
+							continue
+						}
+						call, isCall := br.Cond.(*ssa.Call)
+						if isCall && strings.HasSuffix(calleeName(call.Common()), "fieldOptionsWithContext).inherit") && id.Succs[0].Dominates(b) && len(id.Succs[0].Preds) == 1 {
+							ok = true
+						}
+					}
+					if ok {
+						gated = true
+						continue
+					}
+					bad = append(bad, fmt.Sprintf("%s: createValuer builds the ancestor-searching valuer outside the `opts.inherit()` outcome: members that do not declare inherit take values from enclosing objects", at))
+				default:
+					bad = append(bad, fmt.Sprintf("%s: %s wraps a value in recursiveValuer: every member looked up through it falls back to same-named values of the enclosing objects, whether or not it declares `inherit`", at, name))
+				}
+			}
+		}
+	}
+	sort.Strings(bad)
+	c.R.Check(len(bad) == 0 && gated, rule, pkg+"#ancestor-lookup", "the ancestor-searching valuer is built only by createValuer under opts.inherit(), by the dotted-key walk and by the valuers' own Parent methods", "-", fmt.Sprintf("%d constructions; inherit-gated construction found=%v; %s", n, gated, strings.Join(bad, "; ")), bad, n)
+	if n < 4 {
+		c.R.Undecided(rule, pkg+"#ancestor-sites", "the constructions of recursiveValuer are recognised", fmt.Sprintf("%d found", n))
 	}
 }
